@@ -7,8 +7,8 @@
 (* Ledger side (one action = one block with one real contract transaction):*)
 (*   relayers  registered relayer addresses (RELAYER keys)                 *)
 (*   app       open register requests  id -> [list, signs]                 *)
-(*   rem       remove requests         id -> [list, signs]   (the code     *)
-(*             never deletes an approved remove request; the approvals     *)
+(*   rem       remove requests         id -> [list, signs]   (since fix   *)
+(*             d1f0dec an approved remove request is deleted; the approvals*)
 (*             start again from zero - kept, named RemStays)               *)
 (*   peers     keys of the consensus peer pool map (any status)            *)
 (*   capp      candidate applications  c -> signs                          *)
@@ -71,7 +71,7 @@ ApproveRemF(x, id, v) ==
     IF id \notin DOMAIN x.rem THEN x
     ELSE LET sg == x.rem[id].signs \cup {v} IN
          IF Cardinality(sg \cap Val) >= Quorum
-         THEN [x EXCEPT !.relayers = @ \ Range(x.rem[id].list), !.rem[id].signs = {}]     \* RemStays
+         THEN [x EXCEPT !.relayers = @ \ Range(x.rem[id].list), !.rem = Drop(@, id)]     \* consumed (fix d1f0dec; before it the request stayed)
          ELSE [x EXCEPT !.rem[id].signs = sg]
 CandRegF(x, c) == IF c \in DOMAIN x.capp \/ c \in x.peers THEN x ELSE [x EXCEPT !.capp = Put(@, c, {})]
 CandApproveF(x, c, v) ==
